@@ -5,7 +5,7 @@
 # except those two texts.
 R=$1
 mkdir -p $R
-cp /tmp/seed3/run_tests.sh $R/run_tests.sh 2>/dev/null || true
+cp /verif/tools/seed_run_tests.sh $R/run_tests.sh
 for i in 01 02 03 04 05 06 07 08 09 10 11 12 13 14 15 16 17 18 19 20; do
   id=C$i
   git -C /repo worktree add -q --detach $R/wt-$id HEAD || exit 1
